@@ -64,13 +64,18 @@ Proof.
 Qed.
 Print Assumptions partition_no_overlap.
 
-(* the latency sum is a function of the sorted latency path (so it is irrelevant which of two
-   duplicates the de-duplication keeps) *)
+(* the latency sum the model reports for a path is computed FROM the sorted latency path (the code sums lat_path after
+   lat_path.sort()), so it is irrelevant which of two duplicates the de-duplication keeps ... *)
+Theorem reported_lat_sum_function_of_lat_path :
+  forall off p q seen r, lat_path off p = lat_path off q -> dedup off seen (p :: r) = dedup off seen (q :: r).
+Proof. intros off p q seen r H. cbn [dedup]. rewrite H. reflexivity. Qed.
+Print Assumptions reported_lat_sum_function_of_lat_path.
+
+(* ... and over Z (exact latencies, the setting of this model) it is the sum in path order, what the code computed before *)
 Theorem lat_sum_function_of_lat_path :
   forall off p q, lat_path off p = lat_path off q -> lat_sum p = lat_sum q.
 Proof.
-  intros off p q H. pose proof (lat_sum_canon off p) as Hp. pose proof (lat_sum_canon off q) as Hq.
-  rewrite H in Hp. rewrite <- Hq in Hp. congruence.
+  intros off p q H. rewrite (lat_sum_path_order off p), (lat_sum_path_order off q), H. reflexivity.
 Qed.
 Print Assumptions lat_sum_function_of_lat_path.
 
